@@ -13,8 +13,9 @@ Source anchors (cb.py, function `cbtf`)
   freq/Omega/lenf, `a` expanded when 1-d or one column, the two size checks      (`packA`)
   qset = locate.flippv(bset, lt)                                                 (`flippv`)
   pvnz = Omega != 0                                                              (`FreqSc`)
-  qset empty:  accel = a; displ = -accel/Ω²; veloc = iΩ displ;
-               frc = m[bb] accel + b[bb] veloc + k[bb] displ                     (`cbtfColE`)
+  qset empty:  accel = 0; accel[bset] = a; displ = 0; displ[bset] = -a/Ω²; veloc = iΩ displ;
+               frc = m[bset] accel + b[bset] veloc + k[bset] displ               (`cbtfColE`)
+               (after the fix recorded as F59: the responses in MODEL order, as in the other branch)
   otherwise:   tf = save["tf"] or SolveUnc(m[qq], b[qq], k[qq], rb=[])          (`cbtfCall`)
                v = i a/Ω; f = b[qb] v - m[qb] a; sol = tf.fsolve(f, freq)
                displ[bset] = -a/Ω², displ[qset] = sol.d; veloc = iΩ displ;
@@ -127,17 +128,30 @@ def cbtfCol {α : Type} [Zero α] [Add α] [Sub α] [Mul α] {n r nq : Nat}
       + fsum r (fun l' => K (bpos l) (bpos l') * displ (bpos l'))
     a := accel, d := displ, v := veloc }
 
-/-- `cbtf`, EMPTY q-set, one frequency: `accel = a.copy()` — so the returned `a d v` are in b-set
-order here (they are in model order in the other branch; `frc` is in b-set order in both). -/
+/-- `cbtf`, EMPTY q-set, one frequency (after the fix recorded as finding F59,
+`cbtf-empty-qset-responses-in-bset-order`): the responses are zero-initialised full-size arrays into
+which the b-set values are scattered — `a d v` in MODEL order exactly as in the other branch, `frc` in
+b-set order; `frc = m[bset] @ accel + b[bset] @ veloc + k[bset] @ displ` (full rows).  `loc` has an
+empty q-side; a DOF it would place there keeps the initial zero. -/
 def cbtfColE {α : Type} [Zero α] [Add α] [Mul α] {n r : Nat}
-    (M B K : Fin n → Fin n → α) (bpos : Fin r → Fin n) (sc : FreqSc α) (a : Fin r → α) :
-    CbtfOut α r r :=
-  let displ : Fin r → α := look (tab fun l => sc.c2 * a l)
-  let veloc : Fin r → α := look (tab fun l => sc.s * displ l)
-  { frc := fun l => fsum r (fun l' => M (bpos l) (bpos l') * a l')
-      + fsum r (fun l' => B (bpos l) (bpos l') * veloc l')
-      + fsum r (fun l' => K (bpos l) (bpos l') * displ l')
-    a := a, d := displ, v := veloc }
+    (M B K : Fin n → Fin n → α) (bpos : Fin r → Fin n) (loc : Fin n → Fin r ⊕ Fin 0)
+    (sc : FreqSc α) (a : Fin r → α) : CbtfOut α r n :=
+  let displ : Fin n → α := look (tab fun i =>
+    match loc i with
+    | .inl l => sc.c2 * a l
+    | .inr _ => 0)
+  let veloc : Fin n → α := look (tab fun i => sc.s * displ i)
+  let accel : Fin n → α := look (tab fun i =>
+    match loc i with
+    | .inl l => a l
+    | .inr _ => 0)
+  { frc := fun l => fsum n (fun j => M (bpos l) j * accel j) + fsum n (fun j => B (bpos l) j * veloc j)
+      + fsum n (fun j => K (bpos l) j * displ j)
+    a := accel, d := displ, v := veloc }
+
+/-- `loc` for a partition vector that covers every DOF -/
+def locFnE {n : Nat} (bset : List Nat) (r : Nat) [NeZero r] : Fin n → Fin r ⊕ Fin 0 :=
+  fun i => .inl (Fin.ofNat r ((posOf i.1 bset).getD 0))
 
 /-! ## the `save` dictionary -/
 
@@ -176,8 +190,9 @@ def calcAMpvCol {α : Type} [Zero α] [One α] [Add α] [Sub α] [Mul α] {n r n
 
 /-- the same for an empty q-set -/
 def calcAMpvColE {α : Type} [Zero α] [One α] [Add α] [Mul α] {n r : Nat}
-    (M B K : Fin n → Fin n → α) (bpos : Fin r → Fin n) (sc : FreqSc α) : Fin r → Fin r → α :=
-  fun l direc => (cbtfColE M B K bpos sc (fun l' => if l' = direc then 1 else 0)).frc l
+    (M B K : Fin n → Fin n → α) (bpos : Fin r → Fin n) (loc : Fin n → Fin r ⊕ Fin 0) (sc : FreqSc α) :
+    Fin r → Fin r → α :=
+  fun l direc => (cbtfColE M B K bpos loc sc (fun l' => if l' = direc then 1 else 0)).frc l
 
 /-! ## argument packaging of `a` -/
 
